@@ -1094,7 +1094,7 @@ fn gen_arg(rng: &mut Rng, g: G, seq: usize) -> Arg {
         G::LicenseNamed => Arg::L(vec![rng.s(&["GPL-2+", "MIT"]).to_string(), format!("text{seq}"), ".".to_string(), "more".to_string()]),
         G::Forwarded => Arg::S(rng.s(&["no", "not-needed", "https://example.com/bug/1", "https://Example.com/Bugs/View?ID=42", "Sent-By-Mail-2024"]).to_string()),
         G::Applied => Arg::S(format!("{}{seq}", rng.s(&["commit:deadbeef", "1.2.", "https://x/y"]))),
-        G::Origin => Arg::S(format!("{}{}{seq}", rng.s(&["", "backport, ", "vendor, ", "upstream, ", "other, "]), rng.s(&["commit:abc", "https://example.com/p"]))),
+        G::Origin => Arg::S(format!("{}{}{seq}", rng.s(&["", "backport, ", "vendor, ", "upstream, ", "other, "]), rng.s(&["commit:abc", "https://example.com/p", "https://example.com/r/1234, adapted to 2.x, see list"]))),
         G::Env => Arg::L((0..1 + rng.below(3)).map(|i| format!("K{seq}{i}=\"{}\"", w(rng))).collect()),
     }
 }
